@@ -48,34 +48,36 @@ def _classifier_calls(body):
 
 
 def r1_classifier_agreement(ctx):
+    from .common import client_message_handlers
     F, R = ctx.F, ctx.R
-    b = F.one(HRM)
-    R.fn(b)
+    fam = client_message_handlers(F)
+    b = fam[0]
     tr = ctx.tracer(follow_callers=False, follow_fields=False)
-    calls = _classifier_calls(b)
     single, elem, other = [], [], []
-    for c in calls:
-        lv = tr.origins(b, c.args[0])
-        kinds = set()
-        for l in lv:
-            if l.kind == "param" and l.detail["idx"] == 1:
-                kinds.add("whole")
-            elif l.kind == "call" and re.search(r"RawValue::get$", l.detail["callee"] or ""):
-                # whose RawValue? must be the loop element
-                l2 = tr.origins(b, l.detail["args"][0])
-                if any(x.kind == "call" and re.search(r"Iterator.*::next$|::next$", x.detail["callee"] or "") for x in l2) or any("next" in " ".join(x.chain) for x in l2):
-                    kinds.add("element")
+    for hb in fam:
+        R.fn(hb)
+        for c in _classifier_calls(hb):
+            lv = tr.origins(hb, c.args[0])
+            kinds = set()
+            for l in lv:
+                if l.kind == "param" and l.detail["idx"] == 1:
+                    kinds.add("whole")
+                elif l.kind == "call" and re.search(r"RawValue::get$", l.detail["callee"] or ""):
+                    # whose RawValue? must be the loop element
+                    l2 = tr.origins(hb, l.detail["args"][0])
+                    if any(x.kind == "call" and re.search(r"Iterator.*::next$|::next$", x.detail["callee"] or "") for x in l2) or any("next" in " ".join(x.chain) for x in l2):
+                        kinds.add("element")
+                    else:
+                        kinds.add("other")
                 else:
                     kinds.add("other")
-            else:
-                kinds.add("other")
-        in_loop = enclosing_loop_next(b, c.bb) is not None
-        (elem if in_loop else single).append((c, kinds))
+            in_loop = enclosing_loop_next(hb, c.bb) is not None
+            (elem if in_loop else single).append((c, kinds))
     R.floor("C05.R1", len(single) + len(elem), 8, "classifier attempts in handle_recv_message")
 
     def ordered(lst):
-        # order along the else-if chain = dominance order
-        return sorted(lst, key=lambda x: len(b.dom[x[0].bb]))
+        # order along the else-if chain = dominance order (within the function the attempt lives in)
+        return sorted(lst, key=lambda x: (fam.index(x[0].body), len(x[0].body.dom[x[0].bb])))
 
     s_types = [_norm_ty(c.ga[-1]) for c, _ in ordered(single)]
     e_types = [_norm_ty(c.ga[-1]) for c, _ in ordered(elem)]
@@ -88,15 +90,15 @@ def r1_classifier_agreement(ctx):
     proc = {}
     for lst, label in ((single, "single"), (elem, "element")):
         for c, _ in lst:
-            sws = flow.switch_on(b, c.dest["l"])
+            cb = c.body
+            sws = flow.switch_on(cb, c.dest["l"])
             okb = None
             for sb, arms, other_ in sws:
                 okb = arms.get("0", other_)
             handlers = set()
             if okb is not None:
-                for h in b.calls_to(r"async_client::helpers::process_|async_client::process_subscription_close_response$"):
-                    nxt = [x for x, _ in lst if x.bb != c.bb and b.dominates(c.bb, x.bb)]
-                    if b.dominates(okb, h.bb):
+                for h in cb.calls_to(r"async_client::helpers::process_|async_client::process_subscription_close_response$"):
+                    if cb.dominates(okb, h.bb):
                         handlers.add(h.name().split("::")[-1])
             proc.setdefault(_norm_ty(c.ga[-1]), {})[label] = handlers
     for t, d in proc.items():
@@ -183,33 +185,37 @@ def r3_lag_and_close(ctx):
             ok = any(y.kind == "field" and [f[1] for f in y.detail["fields"]][-2:] == ["params", "subscription"] for y in lv)
             R.check(ok, "C05.R3", "closed-id-is-own@%d" % dom_somes.index((bi, st)), "the id reported for closing is the notification's own subscription id", "the id reported for closing is not the notification's subscription id", "%s:%d" % (b.file, st["sp"][0]))
     # caller turns it into FrontToBack::SubscriptionClosed(sub_id)
-    h = F.one(HRM)
-    cl = []
-    for bi, blk in enumerate(h.blocks):
-        for st in blk["st"]:
-            if st["s"] == "assign" and st["rv"]["k"] == "agg" and st["rv"].get("variant") == "SubscriptionClosed":
-                cl.append((bi, st))
-    n_psr = len(h.calls_to(r"helpers::process_subscription_response$"))
-    R.check(len(cl) >= n_psr and n_psr >= 2, "C05.R3", "caller-emits-SubscriptionClosed", "each process_subscription_response site forwards the id as SubscriptionClosed", "%d process_subscription_response sites but %d SubscriptionClosed constructions" % (n_psr, len(cl)), "%s:%d" % (h.file, h.lo))
-    # ... unconditionally: on the Some arm every path to the next element / the exit builds SubscriptionClosed
-    through = {bi for bi, _ in cl}
-    for c in h.calls_to(r"helpers::process_subscription_response$"):
-        some_t = None
-        for sb, arms, other in flow.switch_on(h, c.dest["l"]):
-            some_t = arms.get("1")
-        if some_t is None:
-            R.anchor_lost("C05.R3", "match on process_subscription_response's result")
-            continue
-        targets = set(h.exits)
-        nx = enclosing_loop_next(h, c.bb)
-        if nx is not None:
-            targets.add(nx.bb)
-        ok = some_t in through or flow.all_paths_pass(h, some_t, through, targets)
-        R.check(ok, "C05.R3", "close-forwarded-unconditionally@%s" % ("element" if nx is not None else "single"), "every returned subscription id is forwarded as SubscriptionClosed", "a subscription id returned for closing can be dropped without a SubscriptionClosed message (stream never ends, no unsubscribe)", where(c))
-    for bi, st in cl:
-        lv = tr.origins(h, st["rv"]["ops"][0])
-        ok = any(y.kind == "call" and re.search(r"process_subscription_response$", y.detail["callee"] or "") for y in lv)
-        R.check(ok, "C05.R3", "SubscriptionClosed-id@%d" % cl.index((bi, st)), "SubscriptionClosed carries the id returned by process_subscription_response", "SubscriptionClosed does not carry the returned subscription id", "%s:%d" % (h.file, st["sp"][0]))
+    from .common import client_message_handlers
+    n_psr = 0
+    n_cl = 0
+    for h in client_message_handlers(F):
+        cl = []
+        for bi, blk in enumerate(h.blocks):
+            for st in blk["st"]:
+                if st["s"] == "assign" and st["rv"]["k"] == "agg" and st["rv"].get("variant") == "SubscriptionClosed":
+                    cl.append((bi, st))
+        n_psr += len(h.calls_to(r"helpers::process_subscription_response$"))
+        n_cl += len(cl)
+        # ... unconditionally: on the Some arm every path to the next element / the exit builds SubscriptionClosed
+        through = {bi for bi, _ in cl}
+        for c in h.calls_to(r"helpers::process_subscription_response$"):
+            some_t = None
+            for sb, arms, other in flow.switch_on(h, c.dest["l"]):
+                some_t = arms.get("1")
+            if some_t is None:
+                R.anchor_lost("C05.R3", "match on process_subscription_response's result")
+                continue
+            targets = set(h.exits)
+            nx = enclosing_loop_next(h, c.bb)
+            if nx is not None:
+                targets.add(nx.bb)
+            ok = some_t in through or flow.all_paths_pass(h, some_t, through, targets)
+            R.check(ok, "C05.R3", "close-forwarded-unconditionally@%s" % ("element" if nx is not None else "single"), "every returned subscription id is forwarded as SubscriptionClosed", "a subscription id returned for closing can be dropped without a SubscriptionClosed message (stream never ends, no unsubscribe)", where(c))
+        for bi, st in cl:
+            lv = tr.origins(h, st["rv"]["ops"][0])
+            ok = any(y.kind == "call" and re.search(r"process_subscription_response$", y.detail["callee"] or "") for y in lv)
+            R.check(ok, "C05.R3", "SubscriptionClosed-id@%s%d" % ("" if h is client_message_handlers(F)[0] else h.path.split("::")[-1] + ":", cl.index((bi, st))), "SubscriptionClosed carries the id returned by process_subscription_response", "SubscriptionClosed does not carry the returned subscription id", "%s:%d" % (h.file, st["sp"][0]))
+    R.check(n_cl >= n_psr and n_psr >= 2, "C05.R3", "caller-emits-SubscriptionClosed", "each process_subscription_response site forwards the id as SubscriptionClosed", "%d process_subscription_response sites but %d SubscriptionClosed constructions" % (n_psr, n_cl), None)
 
 
 def r4_single_unsubscribe(ctx):
